@@ -1,4 +1,5 @@
 import os
+import collections
 import warnings
 import datetime
 
@@ -146,8 +147,15 @@ class load(DataStreamProcessor):
             for resource_descriptor in datapackage_descriptor['resources']:
                 if resource_matcher.match(resource_descriptor['name']):
                     self.resource_descriptors.append(resource_descriptor)
-            self.iterators = (resource for resource, descriptor in zip(resource_iterator, resources)
-                              if resource_matcher.match(descriptor['name']))
+
+            def selected():
+                for resource, descriptor in zip(resource_iterator, resources):
+                    if resource_matcher.match(descriptor['name']):
+                        yield resource
+                    else:
+                        # like delete_resource: the rows still have to flow for the steps the source is made of
+                        collections.deque(resource, maxlen=0)
+            self.iterators = selected()
 
         # If load_source is string:
         else:
